@@ -51,6 +51,29 @@ def KG.run (k : Nat) : KG → List Nat → List (Nat × Nat)
     | (s', some o) => o :: KG.run k s' bs
     | (s', none) => KG.run k s' bs
 
+/-- tail-recursive form of `KG.run`, used by compiled code only (`KG.run_eq_runTR` below is a `csimp` lemma): the driver then
+handles records of tens of millions of bases without exhausting the stack. Theorems are stated about `KG.run`. -/
+def KG.runTR.go (k : Nat) : KG → List Nat → Array (Nat × Nat) → List (Nat × Nat)
+  | _, [], acc => acc.toList
+  | s, b :: bs, acc =>
+    match KG.step k s b with
+    | (s', some o) => KG.runTR.go k s' bs (acc.push o)
+    | (s', none) => KG.runTR.go k s' bs acc
+
+def KG.runTR (k : Nat) (s : KG) (bs : List Nat) : List (Nat × Nat) := KG.runTR.go k s bs #[]
+
+theorem KG.runTR.go_eq (k : Nat) (s : KG) (bs : List Nat) (acc : Array (Nat × Nat)) :
+    KG.runTR.go k s bs acc = acc.toList ++ KG.run k s bs := by
+  induction bs generalizing s acc with
+  | nil => simp [KG.runTR.go, KG.run]
+  | cons b bs ih =>
+    simp only [KG.runTR.go, KG.run]
+    split <;> simp_all
+
+@[csimp] theorem KG.run_eq_runTR : @KG.run = @KG.runTR := by
+  funext k s bs
+  simp [KG.runTR, KG.runTR.go_eq]
+
 /-- `KmerGenerator::new(seq, k).collect()` -/
 def kmers (k : Nat) (seq : List Nat) : List (Nat × Nat) := KG.run k KG.init seq
 
